@@ -52,6 +52,10 @@ class Ref:
             for k, v in op[1]:
                 d[fold(k)] = v
             return None
+        if name == "update_map_kw":
+            for k, v in list(op[1]) + list(op[2]):
+                d[fold(k)] = v
+            return None
         if name == "update_kw":
             for k, v in op[1]:
                 d[fold(k)] = v
